@@ -50,16 +50,45 @@ Section Proofs.
            | Hx : N.eqb _ _ = true |- _ => apply N.eqb_eq in Hx
            end.
 
-  Ltac fin :=
-    repeat split; intros;
+  Ltac brk2 :=
     repeat match goal with
            | Hx : _ \/ _ |- _ => destruct Hx
            | Hx : exists _, _ |- _ => destruct Hx
            | Hx : _ /\ _ |- _ => destruct Hx
+           end; subst; try discriminate.
+
+  Ltac sat :=
+    repeat match goal with
+           | W : ?P -> _ |- _ =>
+             let Hp := fresh in
+             assert (Hp : P) by
+                 (solve [reflexivity | assumption | congruence | left; congruence
+                        | right; left; congruence | right; right; congruence]);
+             specialize (W Hp); clear Hp
+           end.
+
+  Ltac inst :=
+    repeat match goal with
+           | W : forall p : N, _ -> exists _, _ |- _ =>
+             let x := fresh in
+             let Hx := fresh in
+             edestruct W as [x Hx];
+             [solve [reflexivity | eassumption | left; reflexivity | right; reflexivity
+                    | left; eassumption | right; eassumption]|];
+             clear W; try discriminate Hx
+           end.
+
+  Ltac fin :=
+    repeat split; intros; brk2; sat; brk2; inst; cbn in *;
+    repeat match goal with
+           | Hx : RSettle _ = RSettle _ |- _ => inversion Hx; clear Hx; subst
+           | Hx : ISettledU _ = ISettledU _ |- _ => inversion Hx; clear Hx; subst
+           | Hx : ISettledC _ = ISettledC _ |- _ => inversion Hx; clear Hx; subst
+           | Hx : OSettled _ _ = OSettled _ _ |- _ => inversion Hx; clear Hx; subst
            end;
-    try discriminate; try congruence; eauto;
-    try (left; congruence); try (right; congruence);
-    try (right; eexists; eassumption).
+    try congruence;
+    try solve [reflexivity | eauto | left; congruence | right; eauto
+              | eexists; reflexivity | exfalso; congruence].
 
   Lemma new_circ_wf : forall k h ai ao oc, wf (new_circ k h ai ao oc).
   Proof. intros; unfold wf, new_circ; cbn; fin. Qed.
@@ -90,17 +119,649 @@ Section Proofs.
     destruct a; cbn in Ha; unfold pkt_live, is_locked, mb_none, os_none, cs_half in Ha;
       cbn in *; brk; cbn in *; subst;
       unfold wf, out_dead, resolved in *; cbn in *.
-    all: try (destruct fw; [|specialize (W12 eq_refl); try discriminate]).
-    all: repeat match goal with
-                | W : ?x = ?x -> _ |- _ => specialize (W eq_refl)
-                | W : true = false -> _ |- _ => clear W
-                | W : false = true -> _ |- _ => clear W
-                end.
-    all: try solve [fin].
-    all: try solve [repeat split; intros; try discriminate; try congruence;
-                    try (exfalso; destruct W4 as [? ?]; [auto|discriminate]);
-                    try (destruct W2 with (p := p) as [? ?]; [assumption|discriminate]);
-                    fin].
+    all: fin.
+  Qed.
+
+
+  Lemma restart1_static : forall c,
+    ck (restart1 c) = ck c /\ chash (restart1 c) = chash c /\ ain (restart1 c) = ain c /\
+    aout (restart1 c) = aout c /\ ochan (restart1 c) = ochan c.
+  Proof. intros c; unfold restart1; destruct (cs c), (os c); cbn; auto. Qed.
+
+  Lemma restart1_wf : forall c, wf c -> wf (restart1 c).
+  Proof.
+    intros c Hw. unwf Hw.
+    destruct c as [k h ai ao oc fw ld cl pkk s o m i].
+    unfold restart1, wf, out_dead, resolved in *; cbn in *.
+    destruct s, o, i; cbn in *.
+    all: fin.
+  Qed.
+
+  Lemma sig_out_static : forall ch c,
+    ck (fst (sig_out ch c)) = ck c /\ chash (fst (sig_out ch c)) = chash c /\
+    ain (fst (sig_out ch c)) = ain c /\ aout (fst (sig_out ch c)) = aout c /\
+    ochan (fst (sig_out ch c)) = ochan c.
+  Proof.
+    intros ch c; unfold sig_out; destruct (N.eqb (ochan c) ch), (os c), (cs c); cbn; auto.
+  Qed.
+
+  Lemma sig_in_static : forall ch c,
+    ck (fst (sig_in ch c)) = ck c /\ chash (fst (sig_in ch c)) = chash c /\
+    ain (fst (sig_in ch c)) = ain c /\ aout (fst (sig_in ch c)) = aout c /\
+    ochan (fst (sig_in ch c)) = ochan c.
+  Proof.
+    intros ch c; unfold sig_in; destruct (N.eqb (fst (ck c)) ch), (ist c); cbn; auto.
+  Qed.
+
+  Lemma sig_out_wf : forall ch c, wf c -> wf (fst (sig_out ch c)).
+  Proof.
+    intros ch c Hw. unfold sig_out.
+    destruct (N.eqb (ochan c) ch); [|exact Hw].
+    destruct (os c) eqn:Eo; try exact Hw.
+    destruct (cs c) eqn:Ec; try exact Hw.
+    unwf Hw. destruct c as [k h ai ao oc fw ld cl pkk s o m i].
+    unfold wf, out_dead, resolved in *; cbn in *; subst.
+    fin.
+  Qed.
+
+  Lemma sig_in_wf : forall ch c, wf c -> wf (fst (sig_in ch c)).
+  Proof.
+    intros ch c Hw. unfold sig_in.
+    destruct (N.eqb (fst (ck c)) ch); [|exact Hw].
+    destruct (ist c) eqn:Ei; try exact Hw;
+    unwf Hw; destruct c as [k h ai ao oc fw ld cl pkk s o m i];
+    unfold wf, out_dead, resolved, commit_in, cs_closed in *; cbn in *; subst;
+    destruct s; cbn in *; fin.
+  Qed.
+
+  Lemma sig1_fst : forall ch c, fst (sig1 ch c) = fst (sig_in ch (fst (sig_out ch c))).
+  Proof.
+    intros; unfold sig1. destruct (sig_out ch c) as [c1 d1]; cbn.
+    destruct (sig_in ch c1); reflexivity.
+  Qed.
+
+  Lemma sig1_snd : forall ch c,
+    snd (sig1 ch c) = (snd (sig_out ch c) + snd (sig_in ch (fst (sig_out ch c))))%Z.
+  Proof.
+    intros; unfold sig1. destruct (sig_out ch c) as [c1 d1]; cbn.
+    destruct (sig_in ch c1); reflexivity.
+  Qed.
+
+  Lemma sig1_wf : forall ch c, wf c -> wf (fst (sig1 ch c)).
+  Proof. intros; rewrite sig1_fst; apply sig_in_wf, sig_out_wf; assumption. Qed.
+
+  Lemma sig1_static : forall ch c,
+    ck (fst (sig1 ch c)) = ck c /\ chash (fst (sig1 ch c)) = chash c /\
+    ain (fst (sig1 ch c)) = ain c /\ aout (fst (sig1 ch c)) = aout c /\
+    ochan (fst (sig1 ch c)) = ochan c.
+  Proof.
+    intros. rewrite sig1_fst.
+    destruct (sig_in_static ch (fst (sig_out ch c))) as (a1 & a2 & a3 & a4 & a5).
+    destruct (sig_out_static ch c) as (b1 & b2 & b3 & b4 & b5).
+    repeat split; congruence.
+  Qed.
+
+  (* ---------------- ledger contribution of one circuit ---------------- *)
+
+  Definition holds (c : circ) : bool :=
+    match os c with OCommitted _ => true | OSettled _ _ => true | _ => false end.
+
+  Definition contrib (ch : N) (c : circ) : Z :=
+    ((if in_chan ch c && succeeded c then zin c else 0) -
+     (if out_chan ch c && holds c then zout c else 0))%Z.
+
+  Ltac neq :=
+    repeat match goal with
+           | |- context [N.eqb ?a ?b] =>
+             let E := fresh "Q" in destruct (N.eqb_spec a b) as [E|E]
+           end.
+
+  Lemma act_contrib : forall c a c' d ch, act c a = Some (c', d) ->
+    contrib ch c' = (contrib ch c + (if out_chan ch c then d else 0))%Z.
+  Proof.
+    intros c a c' d ch Ha.
+    destruct c as [k h ai ao oc fw ld cl pkk s o m i].
+    destruct a; cbn in Ha; unfold pkt_live, is_locked, mb_none, os_none, cs_half in Ha;
+      cbn in *; brk; cbn in *;
+      unfold contrib, in_chan, out_chan, succeeded, holds, zin, zout; cbn;
+      neq; cbn; try lia; try congruence;
+      try (destruct i; cbn; lia).
+  Qed.
+
+  Lemma restart1_contrib : forall ch c, wf c -> contrib ch (restart1 c) = contrib ch c.
+  Proof.
+    intros ch c Hw.
+    destruct c as [k h ai ao oc fw ld cl pkk s o m i].
+    unfold restart1, contrib, in_chan, out_chan, succeeded, holds, zin, zout; cbn.
+    destruct s, o, i; cbn; reflexivity.
+  Qed.
+
+  Lemma sig_out_contrib : forall ch ch' c,
+    contrib ch' (fst (sig_out ch c)) =
+    (contrib ch' c + (if N.eqb ch' ch then snd (sig_out ch c) else 0))%Z.
+  Proof.
+    intros ch ch' c. unfold sig_out.
+    destruct (N.eqb_spec (ochan c) ch) as [E|E].
+    2:{ cbn. destruct (N.eqb ch' ch); lia. }
+    destruct (os c) eqn:Eo; cbn; try (destruct (N.eqb ch' ch); lia).
+    destruct (cs c) eqn:Ec; cbn; try (destruct (N.eqb ch' ch); lia).
+    unfold contrib, in_chan, out_chan, succeeded, holds, zin, zout; cbn. rewrite Eo, E.
+    destruct (N.eqb_spec ch' ch) as [F|F].
+    - subst ch'. rewrite N.eqb_refl. cbn. lia.
+    - destruct (N.eqb_spec ch ch') as [G|G]; [congruence|]. cbn. lia.
+  Qed.
+
+  Lemma sig_in_contrib : forall ch ch' c,
+    contrib ch' (fst (sig_in ch c)) =
+    (contrib ch' c + (if N.eqb ch' ch then snd (sig_in ch c) else 0))%Z.
+  Proof.
+    intros ch ch' c. unfold sig_in.
+    destruct (N.eqb_spec (fst (ck c)) ch) as [E|E].
+    2:{ cbn. destruct (N.eqb ch' ch); lia. }
+    destruct (ist c) eqn:Ei; cbn; try (destruct (N.eqb ch' ch); lia).
+    - unfold contrib, in_chan, out_chan, succeeded, holds, zin, zout, commit_in; cbn.
+      rewrite Ei, E.
+      destruct (N.eqb_spec ch' ch) as [F|F].
+      + subst ch'. rewrite N.eqb_refl. cbn. lia.
+      + destruct (N.eqb_spec ch ch') as [G|G]; [congruence|]. cbn. lia.
+    - unfold contrib, in_chan, out_chan, succeeded, holds, zin, zout, commit_in; cbn.
+      rewrite Ei. rewrite andb_false_r. cbn. destruct (N.eqb ch' ch); lia.
+  Qed.
+
+  Lemma sig1_contrib : forall ch ch' c,
+    contrib ch' (fst (sig1 ch c)) =
+    (contrib ch' c + (if N.eqb ch' ch then snd (sig1 ch c) else 0))%Z.
+  Proof.
+    intros ch ch' c. rewrite sig1_fst, sig1_snd, sig_in_contrib, sig_out_contrib.
+    destruct (N.eqb ch' ch); lia.
+  Qed.
+
+
+  (* ---------------- list plumbing ---------------- *)
+
+  Lemma find_some : forall k l c, find k l = Some c -> In c l /\ ck c = k.
+  Proof.
+    induction l as [|a r IH]; cbn; intros c Hf; [discriminate|].
+    destruct (key_eqb k (ck a)) eqn:E.
+    - inversion Hf; subst. apply key_eqb_eq in E. auto.
+    - destruct (IH _ Hf); auto.
+  Qed.
+
+  Lemma find_none : forall k l, find k l = None -> ~ In k (map ck l).
+  Proof.
+    induction l as [|a r IH]; cbn; intros Hf; [tauto|].
+    destruct (key_eqb k (ck a)) eqn:E; [discriminate|].
+    intros [Hx|Hx]; [|exact (IH Hf Hx)].
+    subst k. rewrite key_eqb_refl in E. discriminate.
+  Qed.
+
+  Lemma upd_keys : forall k c' l, ck c' = k -> map ck (upd k c' l) = map ck l.
+  Proof.
+    induction l as [|a r IH]; cbn; intros Hk; [reflexivity|].
+    destruct (key_eqb k (ck a)) eqn:E; cbn.
+    - apply key_eqb_eq in E. congruence.
+    - rewrite IH; auto.
+  Qed.
+
+  Lemma upd_forall : forall (P : circ -> Prop) k c' l,
+    Forall P l -> P c' -> Forall P (upd k c' l).
+  Proof.
+    induction l as [|a r IH]; cbn; intros Hl Hc; [constructor|].
+    inversion Hl; subst. destruct (key_eqb k (ck a)); constructor; auto.
+  Qed.
+
+  Lemma upd_sum : forall (g : circ -> Z) k c c' l, find k l = Some c ->
+    sumZ (map g (upd k c' l)) = (sumZ (map g l) - g c + g c')%Z.
+  Proof.
+    induction l as [|a r IH]; cbn; intros Hf; [discriminate|].
+    destruct (key_eqb k (ck a)) eqn:E; cbn.
+    - inversion Hf; subst. lia.
+    - rewrite (IH Hf). lia.
+  Qed.
+
+  Lemma upd_in : forall k c c' l, In c l -> In c (upd k c' l) \/ find k l = Some c.
+  Proof.
+    induction l as [|a r IH]; cbn; intros Hi; [tauto|].
+    destruct (key_eqb k (ck a)) eqn:E; cbn.
+    - destruct Hi as [->|Hi]; auto.
+    - destruct Hi as [->|Hi]; auto. destruct (IH Hi); auto.
+  Qed.
+
+  Lemma upd_in_new : forall k c c' l, find k l = Some c -> In c' (upd k c' l).
+  Proof.
+    induction l as [|a r IH]; cbn; intros Hf; [discriminate|].
+    destruct (key_eqb k (ck a)) eqn:E; cbn; auto.
+  Qed.
+
+  (* ---------------- global invariant ---------------- *)
+
+  Definition sumc (ch : N) (l : list circ) : Z := sumZ (map (contrib ch) l).
+
+  Record inv (b0 : N -> Z) (st : state) : Prop := mkInv {
+    inv_nodup : NoDup (map ck (circs st));
+    inv_wf : Forall wf (circs st);
+    inv_bal : forall ch, bal st ch = (b0 ch + sumc ch (circs st))%Z }.
+
+  Lemma inv_init : forall b0, inv b0 (init b0).
+  Proof.
+    intros; constructor; cbn; [constructor|constructor|intros; unfold sumc; cbn; lia].
+  Qed.
+
+  Lemma contrib_new : forall ch k h ai ao oc, contrib ch (new_circ k h ai ao oc) = 0%Z.
+  Proof.
+    intros; unfold contrib, new_circ, succeeded, holds; cbn. rewrite !andb_false_r. reflexivity.
+  Qed.
+
+  Lemma sig_map_sum : forall ch ch' l,
+    sumZ (map (contrib ch') (map (fun c => fst (sig1 ch c)) l)) =
+    (sumZ (map (contrib ch') l) +
+     (if N.eqb ch' ch then sumZ (map (fun c => snd (sig1 ch c)) l) else 0))%Z.
+  Proof.
+    induction l as [|a r IH]; cbn.
+    - destruct (N.eqb ch' ch); reflexivity.
+    - rewrite IH, sig1_contrib. destruct (N.eqb ch' ch); lia.
+  Qed.
+
+  Lemma restart_map_sum : forall ch l, Forall wf l ->
+    sumZ (map (contrib ch) (map restart1 l)) = sumZ (map (contrib ch) l).
+  Proof.
+    induction 1 as [|a r Ha Hr IH]; cbn; [reflexivity|].
+    rewrite IH, restart1_contrib; auto.
+  Qed.
+
+  Lemma map_keys_eq : forall (f : circ -> circ) l,
+    (forall c, ck (f c) = ck c) -> map ck (map f l) = map ck l.
+  Proof.
+    intros f l Hf. rewrite map_map. apply map_ext. exact Hf.
+  Qed.
+
+  Lemma forall_map_wf : forall (f : circ -> circ) l,
+    (forall c, wf c -> wf (f c)) -> Forall wf l -> Forall wf (map f l).
+  Proof.
+    intros f l Hf Hl. induction Hl; cbn; constructor; auto.
+  Qed.
+
+  Lemma step_inv : forall b0 st e st', inv b0 st -> step st e = Some st' -> inv b0 st'.
+  Proof.
+    intros b0 st e st' [Hn Hw Hb] Hs. destruct e as [k h ai ao oc|k a|ch|]; cbn in Hs.
+    - destruct (find k (circs st)) eqn:Ef; [discriminate|]. inversion Hs; subst; clear Hs.
+      constructor; cbn.
+      + constructor; [apply find_none; assumption|assumption].
+      + constructor; [apply new_circ_wf|assumption].
+      + intros x. unfold sumc in *. cbn. rewrite contrib_new, Hb. lia.
+    - destruct (find k (circs st)) as [c|] eqn:Ef; [|discriminate].
+      destruct (act c a) as [[c' d]|] eqn:Ea; [|discriminate].
+      inversion Hs; subst; clear Hs.
+      destruct (find_some _ _ _ Ef) as [Hin Hk].
+      destruct (act_static _ _ _ _ Ea) as (S1 & _).
+      assert (Hwc : wf c) by (rewrite Forall_forall in Hw; auto).
+      constructor; cbn.
+      + rewrite upd_keys; [assumption|congruence].
+      + apply upd_forall; [assumption|]. eapply act_wf; eassumption.
+      + intros x. unfold sumc, badd in *.
+        rewrite (upd_sum (contrib x) k c c' _ Ef), (act_contrib _ _ _ _ x Ea), Hb.
+        unfold out_chan. rewrite (N.eqb_sym x (ochan c)).
+        destruct (N.eqb (ochan c) x); lia.
+    - destruct (existsb (unsafe_sig ch) (circs st)); [discriminate|].
+      inversion Hs; subst; clear Hs. constructor; cbn.
+      + rewrite map_keys_eq; [assumption|]. intros c. apply sig1_static.
+      + apply forall_map_wf; [|assumption]. intros c. apply sig1_wf.
+      + intros x. unfold sumc, badd in *. rewrite sig_map_sum, Hb.
+        destruct (N.eqb x ch); lia.
+    - inversion Hs; subst; clear Hs. constructor; cbn.
+      + rewrite map_keys_eq; [assumption|]. intros c. apply restart1_static.
+      + apply forall_map_wf; [|assumption]. exact restart1_wf.
+      + intros x. unfold sumc in *. rewrite restart_map_sum, Hb; auto.
+  Qed.
+
+  Lemma run_inv : forall b0 evs st st', inv b0 st -> run st evs = Some st' -> inv b0 st'.
+  Proof.
+    induction evs as [|e r IH]; cbn; intros st st' Hi Hr.
+    - inversion Hr; subst; assumption.
+    - destruct (step st e) as [s1|] eqn:Es; [|discriminate].
+      eapply IH; [eapply step_inv; eassumption|assumption].
+  Qed.
+
+  Lemma run_app : forall a b st,
+    run st (a ++ b) = match run st a with Some s => run s b | None => None end.
+  Proof.
+    induction a as [|e r IH]; cbn; intros; [reflexivity|].
+    destruct (step st e); [apply IH|reflexivity].
+  Qed.
+
+
+  (* ---------------- the property lemmas ---------------- *)
+
+  Lemma settle_needs_preimage : forall b0 evs st c p,
+    run (init b0) evs = Some st -> In c (circs st) ->
+    ist c = ISettledU p \/ ist c = ISettledC p ->
+    H p = chash c /\ exists ok, os c = OSettled ok p.
+  Proof.
+    intros b0 evs st c p Hr Hin Hs.
+    destruct (run_inv _ _ _ _ (inv_init b0) Hr) as [_ Hw _].
+    rewrite Forall_forall in Hw. specialize (Hw _ Hin). unwf Hw.
+    destruct (W3 _ Hs) as [ok Ho]. split; eauto.
+  Qed.
+
+  Lemma dead_cases : forall c, out_dead c = true ->
+    os c = ONone \/ exists ok, os c = OFailed ok.
+  Proof. intros c; unfold out_dead; destruct (os c); intros; try discriminate; eauto. Qed.
+
+  Lemma fail_back_safe : forall b0 evs st c,
+    run (init b0) evs = Some st -> In c (circs st) ->
+    ist c = IFailedU \/ ist c = IFailedC ->
+    (os c = ONone \/ exists ok, os c = OFailed ok) /\ pk c = false.
+  Proof.
+    intros b0 evs st c Hr Hin Hs.
+    destruct (run_inv _ _ _ _ (inv_init b0) Hr) as [_ Hw _].
+    rewrite Forall_forall in Hw. specialize (Hw _ Hin). unwf Hw.
+    destruct W4 as [Hd Hp]; [tauto|]. split; [apply dead_cases|]; assumption.
+  Qed.
+
+  (* a signed fail-back is final and the outgoing twin stays dead *)
+  Lemma act_frozen : forall c a c' d, act c a = Some (c', d) -> wf c ->
+    ist c = IFailedC -> ist c' = IFailedC /\ os c' = os c.
+  Proof.
+    intros c a c' d Ha Hw Hi. unwf Hw.
+    destruct c as [k h ai ao oc fw ld cl pkk s o m i].
+    cbn in Hi; subst i.
+    unfold out_dead, resolved in *; cbn in *.
+    destruct W4 as [Hd Hp]; [tauto|]. destruct W10 as [Hc Hm]; [reflexivity|].
+    destruct a; cbn in Ha; unfold pkt_live, is_locked, mb_none, os_none, cs_half in Ha;
+      cbn in *; brk; cbn in *; subst; try discriminate;
+      try (destruct Hc; discriminate); auto.
+  Qed.
+
+  Lemma sig1_frozen : forall ch c, wf c -> ist c = IFailedC ->
+    ist (fst (sig1 ch c)) = IFailedC /\ os (fst (sig1 ch c)) = os c.
+  Proof.
+    intros ch c Hw Hi. unwf Hw. rewrite sig1_fst.
+    destruct W4 as [Hd Hp]; [tauto|].
+    destruct c as [k h ai ao oc fw ld cl pkk s o m i]. cbn in *; subst i.
+    unfold sig_out, sig_in, out_dead in *; cbn in *.
+    destruct (N.eqb oc ch); cbn; destruct o; try discriminate; cbn;
+      destruct (N.eqb (fst k) ch); cbn; auto.
+  Qed.
+
+  Lemma restart1_frozen : forall c, wf c -> ist c = IFailedC ->
+    ist (restart1 c) = IFailedC /\ os (restart1 c) = os c.
+  Proof.
+    intros c Hw Hi. unwf Hw. destruct W4 as [Hd Hp]; [tauto|].
+    destruct c as [k h ai ao oc fw ld cl pkk s o m i]. cbn in *; subst i.
+    unfold restart1, out_dead in *; cbn in *.
+    destruct s, o; try discriminate; cbn; auto.
+  Qed.
+
+  Lemma step_frozen : forall b0 st e st' c, inv b0 st -> step st e = Some st' ->
+    In c (circs st) -> ist c = IFailedC ->
+    exists c', In c' (circs st') /\ ck c' = ck c /\ ist c' = IFailedC /\ os c' = os c.
+  Proof.
+    intros b0 st e st' c [Hn Hw Hb] Hs Hin Hi.
+    assert (Hwc : wf c) by (rewrite Forall_forall in Hw; auto).
+    destruct e as [k h ai ao oc|k a|ch|]; cbn in Hs.
+    - destruct (find k (circs st)); [discriminate|]. inversion Hs; subst; clear Hs.
+      exists c; cbn; auto.
+    - destruct (find k (circs st)) as [c1|] eqn:Ef; [|discriminate].
+      destruct (act c1 a) as [[c1' d]|] eqn:Ea; [|discriminate].
+      inversion Hs; subst; clear Hs. cbn.
+      destruct (upd_in k c c1' _ Hin) as [Hx|Hx].
+      + exists c; auto.
+      + rewrite Ef in Hx. inversion Hx; subst c1.
+        destruct (act_frozen _ _ _ _ Ea Hwc Hi) as [F1 F2].
+        destruct (act_static _ _ _ _ Ea) as (S1 & _).
+        exists c1'. split; [eapply upd_in_new; eassumption|auto].
+    - destruct (existsb (unsafe_sig ch) (circs st)); [discriminate|].
+      inversion Hs; subst; clear Hs. cbn.
+      destruct (sig1_frozen ch c Hwc Hi) as [F1 F2].
+      exists (fst (sig1 ch c)). split; [apply (in_map (fun c => fst (sig1 ch c))); assumption|].
+      split; [apply sig1_static|auto].
+    - inversion Hs; subst; clear Hs. cbn.
+      destruct (restart1_frozen c Hwc Hi) as [F1 F2].
+      exists (restart1 c). split; [apply in_map; assumption|].
+      split; [apply restart1_static|auto].
+  Qed.
+
+  Lemma run_frozen : forall b0 evs st st' c, inv b0 st -> run st evs = Some st' ->
+    In c (circs st) -> ist c = IFailedC ->
+    exists c', In c' (circs st') /\ ck c' = ck c /\ ist c' = IFailedC /\ os c' = os c.
+  Proof.
+    induction evs as [|e r IH]; cbn; intros st st' c Hv Hr Hin Hi.
+    - inversion Hr; subst. exists c; auto.
+    - destruct (step st e) as [s1|] eqn:Es; [|discriminate].
+      destruct (step_frozen _ _ _ _ _ Hv Es Hin Hi) as (c1 & I1 & K1 & F1 & O1).
+      destruct (IH s1 st' c1 (step_inv _ _ _ _ Hv Es) Hr I1 F1) as (c2 & I2 & K2 & F2 & O2).
+      exists c2. repeat split; auto; congruence.
+  Qed.
+
+  Lemma fail_back_final : forall b0 evs evs' st st' c,
+    run (init b0) evs = Some st -> In c (circs st) -> ist c = IFailedC ->
+    run st evs' = Some st' ->
+    exists c', In c' (circs st') /\ ck c' = ck c /\ ist c' = IFailedC /\ os c' = os c /\
+               (os c' = ONone \/ exists ok, os c' = OFailed ok).
+  Proof.
+    intros b0 evs evs' st st' c Hr Hin Hi Hr'.
+    pose proof (run_inv _ _ _ _ (inv_init b0) Hr) as Hv.
+    destruct (run_frozen _ _ _ _ _ Hv Hr' Hin Hi) as (c' & I & K & F & O).
+    exists c'. repeat split; auto. rewrite O.
+    destruct (fail_back_safe _ _ _ _ Hr Hin (or_intror Hi)); assumption.
+  Qed.
+
+  (* ---------------- quiescence ---------------- *)
+
+  Lemma resolved_facts : forall c, wf c -> resolved c = true ->
+    (succeeded c = true <-> out_settled c = true) /\ out_active c = false /\
+    pk c = false /\ mb c = RNone /\ circ_pending c = false /\
+    holds c = succeeded c /\ in_settled c = succeeded c /\ out_settled c = succeeded c.
+  Proof.
+    intros c Hw Hr. unwf Hw.
+    destruct W10 as [Hc Hm]; [assumption|].
+    destruct c as [k h ai ao oc fw ld cl pkk s o m i].
+    unfold resolved, succeeded, out_settled, out_active, circ_pending, holds, in_settled,
+      out_dead in *; cbn in *.
+    destruct i; try discriminate.
+    - destruct (W3 p) as [ok Ho]; [auto|]. subst o.
+      rewrite W8 by discriminate.
+      repeat split; auto; destruct Hc; subst; auto.
+    - destruct W4 as [Hd Hp]; [auto|]. subst pkk.
+      destruct o; try discriminate; repeat split; auto; try discriminate;
+        destruct Hc; subst; auto.
+  Qed.
+
+  Lemma count_zero : forall (f : circ -> bool) (l : list circ), (forall c, In c l -> f c = false) -> count f l = 0.
+  Proof.
+    intros f l Hf. unfold count. induction l as [|a r IH]; cbn; [reflexivity|].
+    rewrite (Hf a (or_introl eq_refl)). apply IH. intros; apply Hf; right; assumption.
+  Qed.
+
+  Lemma sum_over_ext : forall (f f' : circ -> bool) (g g' : circ -> Z) (l : list circ),
+    (forall c, In c l -> (if f c then g c else 0%Z) = (if f' c then g' c else 0%Z)) ->
+    sum_over f g l = sum_over f' g' l.
+  Proof.
+    intros f f' g g' l Hx. unfold sum_over. induction l as [|a r IH]; cbn; [reflexivity|].
+    rewrite (Hx a (or_introl eq_refl)), IH; [reflexivity|]. intros; apply Hx; right; assumption.
+  Qed.
+
+  Lemma sumc_quiet : forall ch l, (forall c, In c l -> holds c = succeeded c) ->
+    sumc ch l = (sum_over (fun c => in_chan ch c && succeeded c) zin l -
+                 sum_over (fun c => out_chan ch c && succeeded c) zout l)%Z.
+  Proof.
+    intros ch l Hx. unfold sumc, sum_over. induction l as [|a r IH]; cbn; [reflexivity|].
+    rewrite IH by (intros; apply Hx; right; assumption).
+    unfold contrib. rewrite (Hx a (or_introl eq_refl)). lia.
+  Qed.
+
+  Lemma sum_over_fee : forall l,
+    sum_over succeeded fee l = (sum_over succeeded zin l - sum_over succeeded zout l)%Z.
+  Proof.
+    unfold sum_over, fee. induction l as [|a r IH]; cbn; [reflexivity|].
+    rewrite IH. destruct (succeeded a); lia.
+  Qed.
+
+  Lemma quiescent_balance : forall b0 evs st,
+    run (init b0) evs = Some st -> quiescent st = true ->
+    (forall c, In c (circs st) ->
+       (succeeded c = true <-> out_settled c = true) /\ out_active c = false /\
+       pk c = false /\ mb c = RNone /\ circ_pending c = false) /\
+    num_pending st = 0 /\ num_open st = 0 /\
+    (forall ch, bal st ch = expected_bal b0 st ch) /\
+    sender_debits st = (receiver_credits st + fees_earned st)%Z.
+  Proof.
+    intros b0 evs st Hr Hq.
+    destruct (run_inv _ _ _ _ (inv_init b0) Hr) as [_ Hw Hb].
+    rewrite Forall_forall in Hw. unfold quiescent in Hq. rewrite forallb_forall in Hq.
+    assert (HF : forall c, In c (circs st) ->
+              (succeeded c = true <-> out_settled c = true) /\ out_active c = false /\
+              pk c = false /\ mb c = RNone /\ circ_pending c = false /\
+              holds c = succeeded c /\ in_settled c = succeeded c /\
+              out_settled c = succeeded c).
+    { intros c Hin. apply resolved_facts; auto. }
+    split; [|split; [|split; [|split]]].
+    - intros c Hin. destruct (HF c Hin) as (a1 & a2 & a3 & a4 & a5 & _). auto.
+    - apply count_zero. intros c Hin. apply (HF c Hin).
+    - apply count_zero. intros c Hin. destruct (HF c Hin) as (_ & _ & _ & _ & a5 & _).
+      unfold circ_pending, circ_open in *. destruct (cs c); auto; discriminate.
+    - intros ch. rewrite Hb. unfold expected_bal.
+      rewrite sumc_quiet; [lia|]. intros c Hin. apply (HF c Hin).
+    - unfold sender_debits, receiver_credits, fees_earned.
+      rewrite sum_over_fee.
+      rewrite (sum_over_ext in_settled succeeded zin zin).
+      2:{ intros c Hin. destruct (HF c Hin) as (_ & _ & _ & _ & _ & _ & a7 & _).
+          rewrite a7; reflexivity. }
+      rewrite (sum_over_ext out_settled succeeded zout zout).
+      2:{ intros c Hin. destruct (HF c Hin) as (_ & _ & _ & _ & _ & _ & _ & a8).
+          rewrite a8; reflexivity. }
+      lia.
+  Qed.
+
+  Lemma sum_partition : forall (sel : N -> circ -> bool) (proj : circ -> N) g c1 c2 l,
+    (forall ch c, sel ch c = N.eqb (proj c) ch) -> c1 <> c2 ->
+    (forall c, In c l -> proj c = c1 \/ proj c = c2) ->
+    (sum_over (fun c => sel c1 c && succeeded c) g l +
+     sum_over (fun c => sel c2 c && succeeded c) g l)%Z = sum_over succeeded g l.
+  Proof.
+    intros sel proj g c1 c2 l Hsel Hne Hx. unfold sum_over.
+    induction l as [|a r IH]; cbn; [reflexivity|].
+    assert (IH' := IH (fun c Hc => Hx c (or_intror Hc))).
+    rewrite !Hsel.
+    destruct (Hx a (or_introl eq_refl)) as [E|E]; rewrite E.
+    - rewrite N.eqb_refl. destruct (N.eqb_spec c1 c2); [contradiction|].
+      cbn. destruct (succeeded a); lia.
+    - rewrite N.eqb_refl. destruct (N.eqb_spec c2 c1); [congruence|].
+      cbn. destruct (succeeded a); lia.
+  Qed.
+
+  Lemma quiescent_total : forall b0 evs st c1 c2,
+    run (init b0) evs = Some st -> quiescent st = true -> c1 <> c2 ->
+    (forall c, In c (circs st) ->
+       (fst (ck c) = c1 \/ fst (ck c) = c2) /\ (ochan c = c1 \/ ochan c = c2)) ->
+    (bal st c1 + bal st c2 = b0 c1 + b0 c2 + fees_earned st)%Z.
+  Proof.
+    intros b0 evs st c1 c2 Hr Hq Hne Hx.
+    destruct (quiescent_balance _ _ _ Hr Hq) as (_ & _ & _ & Hb & _).
+    rewrite !Hb. unfold expected_bal, fees_earned. rewrite sum_over_fee.
+    pose proof (sum_partition in_chan (fun c => fst (ck c)) zin c1 c2 (circs st)
+                  (fun ch c => eq_refl) Hne (fun c Hc => proj1 (Hx c Hc))) as P1.
+    pose proof (sum_partition out_chan ochan zout c1 c2 (circs st)
+                  (fun ch c => eq_refl) Hne (fun c Hc => proj2 (Hx c Hc))) as P2.
+    lia.
+  Qed.
+
+
+  (* ---------------- trace-level form of the settle clause ---------------- *)
+
+  Lemma act_settled_origin : forall c a c' d ok p, act c a = Some (c', d) ->
+    os c' = OSettled ok p -> a = AOutSettle ok p \/ os c = OSettled ok p.
+  Proof.
+    intros c a c' d ok p Ha Ho.
+    destruct c as [k h ai ao oc fw ld cl pkk s o m i].
+    destruct a; cbn in Ha; unfold pkt_live, is_locked, mb_none, os_none, cs_half in Ha;
+      cbn in *; brk; cbn in *; try discriminate; auto.
+    inversion Ho; subst; auto.
+  Qed.
+
+  Lemma upd_in_inv : forall k c' x l, In x (upd k c' l) -> x = c' \/ In x l.
+  Proof.
+    induction l as [|a r IH]; cbn; intros Hi; [tauto|].
+    destruct (key_eqb k (ck a)); cbn in Hi.
+    - destruct Hi; auto.
+    - destruct Hi as [->|Hi]; auto. destruct (IH Hi); auto.
+  Qed.
+
+  Lemma step_settled_origin : forall st e st' c' ok p, step st e = Some st' ->
+    In c' (circs st') -> os c' = OSettled ok p ->
+    e = ECirc (ck c') (AOutSettle ok p) \/
+    exists c, In c (circs st) /\ ck c = ck c' /\ os c = OSettled ok p.
+  Proof.
+    intros st e st' c' ok p Hs Hin Ho.
+    destruct e as [k h ai ao oc|k a|ch|]; cbn in Hs.
+    - destruct (find k (circs st)); [discriminate|]. inversion Hs; subst; clear Hs.
+      cbn in Hin. destruct Hin as [<-|Hin]; [cbn in Ho; discriminate|]. right; eauto.
+    - destruct (find k (circs st)) as [c1|] eqn:Ef; [|discriminate].
+      destruct (act c1 a) as [[c1' d]|] eqn:Ea; [|discriminate].
+      inversion Hs; subst; clear Hs. cbn in Hin.
+      destruct (find_some _ _ _ Ef) as [Hi1 Hk1].
+      destruct (act_static _ _ _ _ Ea) as (S1 & _).
+      destruct (upd_in_inv _ _ _ _ Hin) as [->|Hx]; [|right; eauto].
+      destruct (act_settled_origin _ _ _ _ _ _ Ea Ho) as [->|Hp].
+      + left. congruence.
+      + right. exists c1. auto.
+    - destruct (existsb (unsafe_sig ch) (circs st)); [discriminate|].
+      inversion Hs; subst; clear Hs. cbn in Hin.
+      apply in_map_iff in Hin. destruct Hin as (c & <- & Hc).
+      right. exists c. split; [assumption|]. split; [symmetry; apply sig1_static|].
+      rewrite sig1_fst in Ho. unfold sig_in, sig_out in Ho.
+      destruct (N.eqb (ochan c) ch); cbn in Ho.
+      + destruct (os c) eqn:Eo; cbn in Ho;
+          try (destruct (cs c); cbn in Ho);
+          repeat match type of Ho with
+                 | context [if ?b then _ else _] => destruct b; cbn in Ho
+                 | context [match ist ?x with _ => _ end] => destruct (ist x); cbn in Ho
+                 end; try rewrite Eo in Ho; try discriminate; auto.
+      + repeat match type of Ho with
+               | context [if ?b then _ else _] => destruct b; cbn in Ho
+               | context [match ist ?x with _ => _ end] => destruct (ist x); cbn in Ho
+               end; auto.
+    - inversion Hs; subst; clear Hs. cbn in Hin.
+      apply in_map_iff in Hin. destruct Hin as (c & <- & Hc).
+      right. exists c. split; [assumption|]. split; [symmetry; apply restart1_static|].
+      unfold restart1 in Ho. destruct (cs c), (os c); cbn in Ho; try discriminate; auto.
+  Qed.
+
+  Lemma run_settled_origin : forall evs st st' c' ok p, run st evs = Some st' ->
+    In c' (circs st') -> os c' = OSettled ok p ->
+    In (ECirc (ck c') (AOutSettle ok p)) evs \/
+    exists c, In c (circs st) /\ ck c = ck c' /\ os c = OSettled ok p.
+  Proof.
+    induction evs as [|e r IH]; cbn; intros st st' c' ok p Hr Hin Ho.
+    - inversion Hr; subst. right; eauto.
+    - destruct (step st e) as [s1|] eqn:Es; [|discriminate].
+      destruct (IH _ _ _ _ _ Hr Hin Ho) as [Hx|(c1 & I1 & K1 & O1)]; [auto|].
+      destruct (step_settled_origin _ _ _ _ _ _ Es I1 O1) as [->|(c0 & I0 & K0 & O0)].
+      + left. left. congruence.
+      + right. exists c0. repeat split; auto; congruence.
+  Qed.
+
+  Lemma settle_needs_preimage_trace : forall b0 evs st k p,
+    run (init b0) (evs ++ [ECirc k (AInSettle p)]) = Some st ->
+    exists ok, In (ECirc k (AOutSettle ok p)) evs.
+  Proof.
+    intros b0 evs st k p Hr.
+    rewrite run_app in Hr. destruct (run (init b0) evs) as [s1|] eqn:E1; [|discriminate].
+    assert (Hs : step s1 (ECirc k (AInSettle p)) = Some st).
+    { cbn [Model.run] in Hr. destruct (step s1 (ECirc k (AInSettle p))); [|discriminate].
+      inversion Hr; reflexivity. }
+    clear Hr. unfold Model.step in Hs.
+    destruct (find k (circs s1)) as [c|] eqn:Ef; [|discriminate].
+    destruct (act c (AInSettle p)) as [[c' d]|] eqn:Ea; [|discriminate].
+    destruct (find_some _ _ _ Ef) as [Hin Hk].
+    destruct (run_inv _ _ _ _ (inv_init b0) E1) as [_ Hw _].
+    rewrite Forall_forall in Hw. specialize (Hw _ Hin). unwf Hw.
+    cbn in Ea. destruct (ist c); try discriminate. destruct (mb c) eqn:Em; try discriminate.
+    destruct (N.eqb_spec p p0) as [->|]; [|discriminate].
+    destruct (W2 _ eq_refl) as [ok Ho]. exists ok.
+    destruct (run_settled_origin _ _ _ _ _ _ E1 Hin Ho) as [Hx|(c0 & I0 & _)].
+    - rewrite Hk in Hx. exact Hx.
+    - cbn in I0. contradiction.
   Qed.
 
 End Proofs.
